@@ -1060,33 +1060,35 @@ impl<Body> Response<Body> {
 impl Response<Vec<u8>> {
     /// what reading this response's body as a string / as JSON gives (decode_body: unit D; serde_json: uninterpreted)
     pub uninterp spec fn body_string_s(&self) -> Result<String>;
-    /// what `body_bytes` yields: the stored bytes, or the "Body had no bytes" error when they were taken before
-    pub uninterp spec fn body_bytes_s(&self) -> Result<Vec<u8>>;
-    /// what reading the body as JSON gives: the bytes handed to serde_json, its error turned into an HttpError by From
-    pub open spec fn body_json_s<T>(&self) -> Result<T> {
-        match self.body_bytes_s() {
-            Ok(b) => match json_from_slice_s::<T>(b@) { Ok(v) => Ok(v), Err(e) => Err(json_err_s(e)) },
-            Err(e) => Err(e),
-        }
-    }
     // ASSUMED here (body_string -> content_type + decode_body, proved in unit D): consumes the body and leaves
     // status, headers and version alone
     #[verifier::external_body]
     pub fn body_string(&mut self) -> (r: Result<String>)
         ensures r == old(self).body_string_s(), final(self).status == old(self).status, final(self).headers == old(self).headers, final(self).version == old(self).version,
     { unimplemented!() }
-    // ASSUMED (crux_http/src/response/response.rs: `self.body.take().ok_or_else(..)`): takes the body, leaves
-    // status, headers and version alone
-    #[verifier::external_body]
-    pub fn body_bytes(&mut self) -> (r: Result<Vec<u8>>)
-        ensures r == old(self).body_bytes_s(), final(self).status == old(self).status, final(self).headers == old(self).headers, final(self).version == old(self).version,
-    { unimplemented!() }
+//@extract id=Response::status file=crux_http/src/response/response.rs within="impl<Body> Response<Body>" item="fn status" props=C15
+//@expect pub fn status(&self) -> StatusCode
+//@sig pub fn status(&self) -> (r: StatusCode)
+//@contract
+        ensures r == self.status, // [C15/Response::status/the-accessor-returns-the-stored-status]
+//@end
+//@extract id=Response::body_bytes file=crux_http/src/response/response.rs within="impl Response<Vec<u8>>" item="fn body_bytes" props=C15
+//@expect pub fn body_bytes(&mut self) -> crate::Result<Vec<u8>>
+//@sig pub fn body_bytes(&mut self) -> (r: Result<Vec<u8>>)
+//@contract
+        ensures
+            old(self).body matches Some(b) ==> r == Ok::<Vec<u8>, HttpError>(b), // [C15/Response::body_bytes/a-stored-body-is-returned-as-it-is]
+            old(self).body is None ==> (r matches Err(HttpError::Http { code, message, body }) && code == old(self).status && body is None), // [C15/Response::body_bytes/a-body-already-taken-is-an-error-value-carrying-the-status]
+            final(self).body is None && final(self).status == old(self).status && final(self).headers == old(self).headers && final(self).version == old(self).version, // [C15/Response::body_bytes/the-body-is-taken-and-status-headers-version-stay]
+//@rule X1.closure-contract.nullary 1 s~ok_or_else\(\|\|\s*(crate::HttpError::Http\s*\{[^}]*\})\s*\)~ok_or_else(|| -> (e: HttpError) ensures e matches HttpError::Http { code, message, body } && code == self.status && body is None { \1 })~
+//@end
 //@extract id=Response::body_json file=crux_http/src/response/response.rs within="impl Response<Vec<u8>>" item="fn body_json" props=C15
 //@expect pub fn body_json<T: DeserializeOwned>(&mut self) -> crate::Result<T>
 //@sig pub fn body_json<T: DeserializeOwned>(&mut self) -> (r: Result<T>)
 //@contract
         ensures
-            r == old(self).body_json_s::<T>(), // [C15/Response::body_json/exactly-the-body-bytes-go-to-the-json-deserializer-and-its-answer-or-error-comes-back]
+            old(self).body matches Some(b) ==> r == json_result::<T>(b@), // [C15/Response::body_json/exactly-the-body-bytes-go-to-the-json-deserializer-and-its-answer-or-error-comes-back]
+            old(self).body is None ==> (r matches Err(HttpError::Http { code, message, body }) && code == old(self).status && body is None), // [C15/Response::body_json/a-body-already-taken-is-an-error-value-carrying-the-status]
             final(self).status == old(self).status && final(self).headers == old(self).headers && final(self).version == old(self).version, // [C15/Response::body_json/reading-the-body-leaves-status-headers-version-alone]
 //@end
 }
@@ -1099,6 +1101,10 @@ pub struct SerdeJsonError { _p: u8 }
 pub uninterp spec fn json_from_slice_s<T>(b: Seq<u8>) -> core::result::Result<T, SerdeJsonError>;
 /// crux_http/src/error.rs From<serde_json::Error>: HttpError::Json(e.to_string())
 pub uninterp spec fn json_err_s(e: SerdeJsonError) -> HttpError;
+/// what reading these bytes as JSON gives: serde_json's answer, its error turned into an HttpError by From
+pub open spec fn json_result<T>(b: Seq<u8>) -> Result<T> {
+    match json_from_slice_s::<T>(b) { Ok(v) => Ok(v), Err(e) => Err(json_err_s(e)) }
+}
 pub mod serde_json {
     use super::*;
     // ASSUMED (serde_json): a function of the bytes and the target type
@@ -1157,8 +1163,8 @@ impl<T: DeserializeOwned> ExpectJson<T> {
 //@sig fn decode(&self, resp: Response<Vec<u8>>) -> (r: Result<Response<T>>)
 //@contract
         ensures
-            r matches Ok(x) ==> resp.body_json_s::<T>() matches Ok(s) && x.body == Some(s) && x.status == resp.status && x.headers == resp.headers && x.version == resp.version, // [C15/ExpectJson::decode/a-success-carries-the-deserialized-value-and-the-same-status-headers-version]
-            r matches Err(e) ==> resp.body_json_s::<T>() == Err::<T, HttpError>(e), // [C15/ExpectJson::decode/a-body-that-does-not-deserialize-is-that-error-value]
+            r matches Ok(x) ==> (resp.body matches Some(b) && json_result::<T>(b@) matches Ok(s) && x.body == Some(s)) && x.status == resp.status && x.headers == resp.headers && x.version == resp.version, // [C15/ExpectJson::decode/a-success-carries-the-deserialized-value-and-the-same-status-headers-version]
+            r matches Err(e) ==> (resp.body matches Some(b) ==> json_result::<T>(b@) == Err::<T, HttpError>(e)) && (resp.body is None ==> (e matches HttpError::Http { code, message, body } && code == resp.status && body is None)), // [C15/ExpectJson::decode/a-body-that-does-not-deserialize-is-that-error-value]
 //@entry
         let mut resp = resp;
 //@end
